@@ -662,6 +662,11 @@ func writeTypeConversion(w *formatting.IndentedWriter, typeChange dsl.TypeChange
 			w.Indented(func() {
 				fmt.Fprintf(w, "%s = std::get<%d>(%s);\n", targetName, tc.TypeIndex, sourceName)
 			})
+			// index 0 is the null case; any other case has no counterpart in the optional
+			fmt.Fprintf(w, "} else if (%s.index() != 0) {\n", sourceName)
+			w.Indented(func() {
+				fmt.Fprintf(w, "throw std::runtime_error(\"Union value is incompatible with target optional type '%s'\");\n", dsl.TypeToShortSyntax(tc.OldType(), false))
+			})
 			fmt.Fprintf(w, "}\n")
 		} else {
 			// Reading an Optional into a Union
